@@ -1116,11 +1116,16 @@ def _display_observers(model):
     `precision`, or by returning what another such method answered)."""
     out = {}
     funcs = [fi for fi in model.funcs.values() if fi.cls is not None and fi.parent is None and fi.mod.rel == 'pyplate/pyplate.py']
+    helpers = {fi.name for fi in model.funcs.values() if fi.parent is None and not fi.name.startswith('get_') and
+               'precisions' in ast.unparse(fi.node) and len(fi.node.body) <= 6}
     for fi in funcs:
         if not (fi.name.startswith('get_') or fi.name in ('dataframe', 'volumes', 'moles')):
             continue
         txt = ast.unparse(fi.node)
-        if 'precisions' in txt and ('round(' in txt or '.round(' in txt):
+        # the number of display digits may come from a helper (`_display_precision(unit)`) that reads config.precisions
+        via_helper = any(isinstance(c, ast.Call) and (c.func.attr if isinstance(c.func, ast.Attribute) else getattr(c.func, 'id', None)) in helpers
+                         for c in ast.walk(fi.node))
+        if ('precisions' in txt or via_helper) and ('round(' in txt or '.round(' in txt):
             out.setdefault(fi.name, []).append(fi.qualname)
     changed = True
     while changed:
